@@ -51,6 +51,8 @@ class Mpsc:
 
     def enabled(self, l):
         k = l[0]
+        if k in "pdkynz" and l[1] >= len(self.tasks):
+            return False
         if k == "p":
             t = self.tasks[l[1]]
             return t["alive"] and not self.finished(t) and (t["woken"] or self.spurious)
@@ -62,6 +64,14 @@ class Mpsc:
         if k == "k":
             t = self.tasks[l[1]]
             return t["alive"] and self.finished(t)
+        if k == "y":
+            t = self.tasks[l[1]]
+            return t["alive"] and ((t["woken"] and not self.finished(t)) or self.spurious)
+        if k == "n":
+            return self.tasks[l[1]]["alive"]
+        if k == "z":
+            t = self.tasks[l[1]]
+            return self.cancel and t["alive"] and l[2] < len(t["cur"])
         if k == "c":
             return self.rx == "open" and (self.rx_woken or self.spurious)
         if k == "x":
@@ -72,6 +82,10 @@ class Mpsc:
         ls = [["p", i] for i in range(len(self.tasks))] + [["r"]]
         ls += [["d", i] for i in range(len(self.tasks))] + [["k", i] for i in range(len(self.tasks))]
         ls += [["c"], ["x"]]
+        ls += [["y", i, 90 + i] for i in range(len(self.tasks))]
+        if len(self.tasks) < 4:
+            ls += [["n", i, [[70 + len(self.tasks)]]] for i in range(len(self.tasks))]
+        ls += [["z", i, j] for i in range(len(self.tasks)) for j in range(len(self.tasks[i]["cur"]))]
         return [l for l in ls if self.enabled(l)]
 
     def step(self, l):
@@ -132,6 +146,30 @@ class Mpsc:
                 self.rw = False
             self.wake(ws)
             return {"w": ws}
+        if k == "y":
+            if self.rx != "open":
+                return {"y": "C", "w": []}
+            if self.full():
+                return {"y": "F", "w": []}
+            self.buf.append(l[2])
+            self.sent.append(l[2])
+            ws = [-1] if self.rw else []
+            self.rw = False
+            self.wake(ws)
+            return {"y": "S", "w": ws}
+        if k == "n":
+            t = {"cur": [], "rest": [list(st) for st in l[2]], "alive": True, "woken": True}
+            self.advance(t)
+            self.tasks.append(t)
+            return {"w": []}
+        if k == "z":
+            t = self.tasks[l[1]]
+            if not t["woken"]:
+                self.cancelled += 1
+            t["cur"].pop(l[2])
+            self.advance(t)
+            t["woken"] = not self.finished(t)
+            return {"w": []}
         if k == "k":
             # close_this_sender, since /repo commit fdb5498e919: wake_receiver like Drop
             t = self.tasks[l[1]]
@@ -220,7 +258,7 @@ def random_walk(rng, cap, progs, spurious, cancel, maxlen):
         # weights: polls dominate; close/drop of the receiver are rare
         pool = []
         for l in en:
-            w = {"p": 16, "r": 20, "d": 4, "k": 2, "c": 2, "x": 1}[l[0]]
+            w = {"p": 16, "r": 20, "d": 4, "k": 2, "c": 2, "x": 1, "y": 3, "n": 2, "z": 3}[l[0]]
             if l[0] == "p" and not m.tasks[l[1]]["woken"]:
                 w = 3
             if l[0] == "d" and not m.finished(m.tasks[l[1]]):
@@ -271,6 +309,8 @@ def gen_mpsc(rng, tier, n):
         fams = [
             (1, [[[1]], [[2]]], False, False, 10, "prdcx"),
             (1, [[[1]], [[2]]], False, False, 9, "prdk"),
+            (1, [[[1]], [[2]]], False, False, 7, "pryn"),
+            (1, [[[1, 2]], [[3]]], False, True, 7, "prz"),
             (1, [[[1, 2]], [[3]]], False, False, 10, "prd"),
             (1, [[[9]], [[3]], [[1, 2]]], False, False, 10, "pr"),
             (2, [[[1, 2]], [[3], [4]]], False, False, 10, "pr"),
@@ -310,6 +350,12 @@ def g_label(l):
         return "DropSender %s" % g_nat(l[1])
     if k == "k":
         return "CloseSender %s" % g_nat(l[1])
+    if k == "y":
+        return "TrySend %s %d" % (g_nat(l[1]), l[2])
+    if k == "n":
+        return "CloneSender %s %s" % (g_nat(l[1]), g_lst([g_lst(["%d" % x for x in st]) for st in l[2]]))
+    if k == "z":
+        return "CancelSend %s %s" % (g_nat(l[1]), g_nat(l[2]))
     return {"r": "PollRx", "c": "CloseRx", "x": "DropRx"}[k]
 
 
@@ -328,6 +374,8 @@ def g_obs(o):
     if "s" in o:
         rs = g_lst([{"S": "SSent", "F": "SFull", "C": "SClosed"}[r] for r in o["s"]])
         return "OPoll %s %s %s" % (rs, "true" if o["fin"] else "false", ws)
+    if "y" in o:
+        return "OTry %s %s" % ({"S": "SSent", "F": "SFull", "C": "SClosed"}[o["y"]], ws)
     if "r" in o:
         r = o["r"]
         rr = "(RSome %d)" % r[1] if r[0] == "some" else {"none": "RNone", "pend": "RPending"}[r[0]]
